@@ -18,6 +18,11 @@ import Model.Sig
 import Proofs.Sig
 import Model.IdState
 import Proofs.IdState
+import Model.ExprMC
+import Proofs.ExprMC
+import Proofs.ExprMCReal
+import Model.ExprEdit
+import Proofs.ExprEdit
 
 open Expr Engine
 
@@ -452,5 +457,222 @@ example : Sig.TextWF (fun _ : Float => ['7']) (fun _ => some 2.0)
   rintro v (rfl | h)
   · exact ⟨by decide, rfl⟩
   · cases h
+
+/-! ### round 3: draws, MonteCarlo and PanelLikelihoodTrajectory (`Model/ExprMC.lean`)
+
+The three operators that evaluate their argument several times in different contexts.  The shared
+language is used unchanged (a `base` node is a node of `Model/Expr.lean`); the context now carries
+the rows and the draws of the current individual. -/
+
+open ExprMC in
+/-- **Compiler correctness of the engine path with draws.**  For every well-formed extended DAG (any
+nesting of `MonteCarlo` / `PanelLikelihoodTrajectory` / `bioDraws` with every operator kind, any
+sharing — also of a sub-formula between the inside and the outside of a `MonteCarlo`), every id
+table naming its parameters, variables and draws, and inputs of matching sizes for one individual:
+serialise → load ("first definition wins") → run gives the evaluation of the formula by name, where
+`MonteCarlo` re-evaluates its argument at every draw and `PanelLikelihoodTrajectory` at every row. -/
+theorem mc_engine_correct {α} [NumOps α] (t : IdM.Table String) (d : XDag α) (hwf : WFX d) (k : Nat)
+    (hk : k < d.length) (hnames : namesOKXB t d = true) (xe : XEngEnv α) (hs : SizedX t xe) :
+    runX t d k xe = evalXRoot semEngine d (xenvOf t xe) k :=
+  runX_eq t d hwf k hk hnames xe hs
+
+open ExprMC in
+/-- … which on the reals is the value with the mathematical node semantics -/
+theorem mc_engine_value (t : IdM.Table String) (d : XDag ℝ) (hwf : WFX d) (k : Nat)
+    (hk : k < d.length) (hnames : namesOKXB t d = true) (xe : XEngEnv ℝ) (hs : SizedX t xe) :
+    runX t d k xe = evalXRoot semMath d (xenvOf t xe) k := by
+  rw [mc_engine_correct t d hwf k hk hnames xe hs, semEngine_eq_semMath_fun]
+
+open ExprMC in
+/-- **The value of `MonteCarlo(e)` is the arithmetic mean of `e` over the draws** (ℝ): if `e`
+evaluates to `v r` at draw `r` for each of the `R ≥ 1` draws of the individual, the node evaluates to
+`(v 0 + … + v (R-1)) / R` — whatever draw was current outside. -/
+theorem monteCarlo_is_mean (sem : Sem ℝ) (d : XDag ℝ) (xe : XEnv ℝ) (fuel k c : Nat) (n : XNode ℝ)
+    (hd : d[k]? = some n) (hx : n.x = .monteCarlo) (hc : n.node.children = [c]) (v : Nat → ℝ)
+    (hR : xe.draws ≠ [])
+    (hv : ∀ r, r < xe.draws.length → evalX sem d fuel { xe with draw := some r } c = .ok (v r)) :
+    evalX sem d (fuel + 1) xe k =
+      .ok (((List.range xe.draws.length).map v).sum / (xe.draws.length : ℝ)) := by
+  rw [evalX, hd]
+  simp only [hx, hc]
+  have hmap : ((List.range xe.draws.length).map fun r => evalX sem d fuel { xe with draw := some r } c) =
+      ((List.range xe.draws.length).map v).map Except.ok := by
+    rw [List.map_map]
+    apply List.map_congr_left
+    intro r hr
+    exact hv r (List.mem_range.mp hr)
+  rw [hmap, avgRes_ok_real]
+  · simp
+  · intro h
+    have hl := congrArg List.length h
+    simp only [List.length_map, List.length_range, List.length_nil] at hl
+    exact hR (List.length_eq_zero_iff.mp hl)
+
+open ExprMC in
+/-- **The value of `PanelLikelihoodTrajectory(e)` is the product of `e` over the rows of the
+individual** (ℝ, `e` positive at every row — it is a probability). -/
+theorem panelTrajectory_is_product (sem : Sem ℝ) (d : XDag ℝ) (xe : XEnv ℝ) (fuel k c : Nat)
+    (n : XNode ℝ) (hd : d[k]? = some n) (hx : n.x = .panelTraj) (hc : n.node.children = [c])
+    (v : Nat → ℝ) (hpos : ∀ r, r < xe.rows.length → 0 < v r)
+    (hv : ∀ r, r < xe.rows.length → evalX sem d fuel { xe with row := r } c = .ok (v r)) :
+    evalX sem d (fuel + 1) xe k = .ok ((List.range xe.rows.length).map v).prod := by
+  rw [evalX, hd]
+  simp only [hx, hc]
+  have hmap : ((List.range xe.rows.length).map fun r => evalX sem d fuel { xe with row := r } c) =
+      ((List.range xe.rows.length).map v).map Except.ok := by
+    rw [List.map_map]
+    apply List.map_congr_left
+    intro r hr
+    exact hv r (List.mem_range.mp hr)
+  rw [hmap, trajRes_ok_real]
+  intro w hw
+  obtain ⟨r, hr, rfl⟩ := List.mem_map.mp hw
+  exact hpos r (List.mem_range.mp hr)
+
+open ExprMC in
+/-- a draw read outside every `MonteCarlo` has no value (the engine: "Draw index is not defined") -/
+theorem draws_outside_monteCarlo {α} [NumOps α] (sem : Sem α) (d : XDag α) (xe : XEnv α)
+    (fuel k : Nat) (n : XNode α) (hd : d[k]? = some n) (hx : n.x = .draws) (ho : xe.draw = none) :
+    evalX sem d (fuel + 1) xe k = .error .domain := by
+  rw [evalX, hd]
+  simp only [hx, ho]
+
+open ExprMC in
+/-- **The extension is conservative**: a formula without the three new kinds has, in any context,
+the value the shared model gives it at the current row — all theorems above about `eval` apply. -/
+theorem mc_conservative {α} [NumOps α] (sem : Sem α) (d : XDag α) (hb : allBase d = true)
+    (xe : XEnv α) (k : Nat) : evalXRoot sem d xe k = eval sem (baseDag d) xe.env k :=
+  evalX_base sem d hb (k + 1) xe k
+
+open ExprMC in
+/-- **The engine's reader inverts the writer on the lines of the three new classes too**
+(`bioDraws.get_signature`, `UnaryOperator.get_signature` for `MonteCarlo` and
+`PanelLikelihoodTrajectory`; the reader takes for them the branches with the code of `Variable` and
+`UnaryMinus`). -/
+theorem mc_text_roundtrip {α} [NumOps α] (txt : α → List Char) (numOf : List Char → Option α)
+    (info : Nat → Nat × List Char) (l : XLine α) (h : TextWFX txt numOf l) :
+    parseLineX numOf (renderLineX txt info l) = some (canonX l) :=
+  parse_renderX txt numOf info l h
+
+open ExprMC in
+/-- … hence the engine path through the bytes is the proved engine path, with draws. -/
+theorem mc_engine_reads_text {α} [NumOps α] (txt : α → List Char) (numOf : List Char → Option α)
+    (info : Nat → Nat × List Char) (t : IdM.Table String) (d : XDag α) (k : Nat) (xe : XEngEnv α)
+    (hwf : ∀ j n, d[j]? = some n → TextWFX txt numOf (lineOfX t j n)) :
+    runTextX txt numOf info t d k xe = runX t d k xe :=
+  runTextX_eq_runX txt numOf info t d k xe hwf
+
+/-! ### round 3: edits of the parameters of a formula (`Model/ExprEdit.lean`) -/
+
+/-- the declarations of `Model/ExprEdit.lean` are those `end_to_end` speaks about -/
+theorem edit_decls_eq (d : Dag ℝ) : ExprEdit.decls d = declsOf d := rfl
+
+/-- **`change_init_values` replaces the starting value of the named parameters — free or fixed — and
+nothing else**: the declarations of the edited formula are the old ones with the new values where
+named; the formula by name is unchanged (every semantics that reads parameters by name). -/
+theorem changeInit_decls {α} [NumOps α] (f : String → Option α) (d : Dag α) :
+    ExprEdit.decls (ExprEdit.changeInit f d) = (ExprEdit.decls d).map (ExprEdit.changeInitDecl f) := by
+  apply ExprEdit.decls_map _ _ d (ExprEdit.changeInitNode_kind f)
+  intro n hk
+  unfold ExprEdit.changeInitNode ExprEdit.changeInitDecl
+  simp only [hk, ↓reduceIte]
+  cases f n.name <;> rfl
+
+theorem changeInit_value {α} [NumOps α] (f : String → Option α) (d : Dag α) (env : Env α) (k : Nat) :
+    eval semEngine (ExprEdit.changeInit f d) env k = eval semEngine d env k ∧
+    eval semMath (ExprEdit.changeInit f d) env k = eval semMath d env k :=
+  ⟨ExprEdit.evalN_map semEngine _ env env d (ExprEdit.changeInitNode_children f)
+      (fun n _ rs => ExprEdit.semEngine_changeInit f n env rs) (k + 1) k,
+   ExprEdit.evalN_map semMath _ env env d (ExprEdit.changeInitNode_children f)
+      (fun n _ rs => ExprEdit.semCommon_changeInit f n env rs) (k + 1) k⟩
+
+/-- **`fix_betas` turns each named parameter into a fixed one with the given value and the new name**
+(declarations), and the edited formula has, under any valuation that gives the new names the values
+the old names had, the value of the original — so by `end_to_end` its engine value is the
+mathematical value at the fixed values, whatever a dictionary says about the old or new names. -/
+theorem fixBetas_decls {α} [NumOps α] (f : String → Option α) (pre suf : String) (d : Dag α) :
+    ExprEdit.decls (ExprEdit.fixBetas f pre suf d) = (ExprEdit.decls d).map (ExprEdit.fixDecl f pre suf) := by
+  apply ExprEdit.decls_map _ _ d (ExprEdit.fixNode_kind f pre suf)
+  intro n hk
+  unfold ExprEdit.fixNode ExprEdit.fixDecl
+  simp only [hk, ↓reduceIte]
+  cases f n.name <;> rfl
+
+theorem fixBetas_value {α} [NumOps α] (f : String → Option α) (pre suf : String) (d : Dag α)
+    (env env' : Env α) (hvar : env'.var = env.var)
+    (hb : ∀ n ∈ d, n.kind = .beta →
+      env'.beta (match f n.name with | some _ => pre ++ n.name ++ suf | none => n.name) = env.beta n.name)
+    (k : Nat) :
+    eval semEngine (ExprEdit.fixBetas f pre suf d) env' k = eval semEngine d env k :=
+  ExprEdit.evalN_map semEngine _ env env' d (ExprEdit.fixNode_children f pre suf)
+    (fun n hn rs => ExprEdit.semEngine_fix f pre suf n env env' hvar (hb n hn) rs) (k + 1) k
+
+/-- the hypotheses of `fixBetas_value` are satisfiable: `b * x` with `b` fixed as `p_b` -/
+example : ∃ (env env' : Env Float) (f : String → Option Float),
+    env'.var = env.var ∧ f "b" = some 1.0 ∧
+    ∀ n ∈ exDag, n.kind = .beta →
+      env'.beta (match f n.name with | some _ => "p_" ++ n.name ++ "" | none => n.name) = env.beta n.name := by
+  refine ⟨{ beta := fun _ => 2.0, var := fun _ => 3.0 }, { beta := fun _ => 2.0, var := fun _ => 3.0 },
+    fun m => if m = "b" then some 1.0 else none, rfl, rfl, ?_⟩
+  intro n _ _
+  rfl
+
+
+open ExprMC in
+/-- **The id table built from the formula itself always works, with draws**: if `prepare` accepts the
+parameters and draw variables of the formula (no name used twice) and the variables are columns,
+every parameter, variable and draw has its ids. -/
+theorem mc_prepare_names {α} [NumOps α] (d : XDag α) (cols : List String) (t : IdM.Table String)
+    (hp : IdM.prepare (declsX d) [] (drawNames d) cols = .ok t)
+    (hv : ∀ n ∈ d, n.x = .base → n.node.kind = .var → n.node.name ∈ cols) : namesOKXB t d = true :=
+  prepare_namesOKX d cols t hp hv
+
+open ExprMC in
+/-- **The position handed to the engine is the position of that name's value, for draws and for the
+rows of an individual**: a vector written in the order of the id table is read back by name. -/
+theorem mc_index_lookup {α} [NumOps α] (names : List String) (f : String → α) (n : String)
+    (hn : n ∈ names) : byName names (names.map f) n = f n := by
+  obtain ⟨i, hi⟩ := Option.isSome_iff_exists.mp ((IdM.indexOf_isSome_iff n names).mpr hn)
+  simp only [byName, hi]
+  exact IdM.indexOf_getD_map n f _ names i hi
+
+/-- witness: MonteCarlo(exp(b * ξ)) * b with the parameter shared between the inside and the outside -/
+def mcDag : ExprMC.XDag Float :=
+  [ { node := { kind := .beta, name := "b", value := 0.5 } },
+    { x := .draws, node := { kind := .num, name := "xi", value := 0.0 } },
+    { node := { kind := .times, children := [0, 1], value := 0.0 } },
+    { node := { kind := .exp, children := [2], value := 0.0 } },
+    { x := .monteCarlo, node := { kind := .num, children := [3], value := 0.0 } },
+    { node := { kind := .times, children := [4, 0], value := 0.0 } } ]
+def mcTable : IdM.Table String := { free := ["b"], fixed := [], rvs := [], draws := ["xi"], cols := ["x"] }
+
+example : ExprMC.wfXB mcDag = true ∧ ExprMC.namesOKXB mcTable mcDag = true ∧ ExprMC.allBase mcDag = false := by
+  decide
+
+/-- the hypothesis of `mc_prepare_names` is satisfiable: the table of the witness is the one `prepare` builds -/
+example : ((IdM.prepare (ExprMC.declsX mcDag) [] (ExprMC.drawNames mcDag) ["x"]).toOption.map
+    fun t => (t.free, t.fixed, t.draws, t.cols)) = some (["b"], [], ["xi"], ["x"]) := by
+  decide +kernel
+
+/-- the hypotheses of `mc_engine_correct` are satisfiable: one row, two draws, outside `MonteCarlo` -/
+example : ExprMC.SizedX mcTable
+    ({ free := [0.5], fixed := [], rows := [[1.0]], row := 0, draws := [[0.25], [0.75]], draw := none } :
+      ExprMC.XEngEnv Float) := by
+  refine ⟨rfl, rfl, ?_, by decide, ?_, ?_⟩
+  · intro r hr
+    simp only [List.mem_singleton] at hr
+    subst hr; rfl
+  · intro dr hdr
+    simp only [List.mem_cons, List.mem_nil_iff, or_false] at hdr
+    rcases hdr with rfl | rfl <;> rfl
+  · intro r hr; cases hr
+
+/-- the hypotheses of `mc_text_roundtrip` are satisfiable: the lines of the draw and of the operator -/
+example : ExprMC.TextWFX (fun _ : Float => ['7']) (fun _ => some 0.0) (ExprMC.lineOfX mcTable 1 mcDag[1]) ∧
+    ExprMC.TextWFX (fun _ : Float => ['7']) (fun _ => some 0.0) (ExprMC.lineOfX mcTable 4 mcDag[4]) := by
+  refine ⟨⟨rfl, rfl, ?_⟩, ⟨rfl, rfl, ?_⟩⟩ <;>
+  · rintro v (rfl | h)
+    · exact ⟨by decide, rfl⟩
+    · cases h
 
 end C01
